@@ -20,6 +20,9 @@ def run(cx):
     cx.rule("C18.R2", "K1", "all four channel closures deliver only under is_match, with the channel's own matchers")
     cx.rule("C18.R3", "E3", "handlers are stored under the channel id (replace on re-register); closing removes exactly that id from the four tables")
     cx.rule("C18.R4", "consts", "default options select everything: five times \"*\"")
+    cx.rule("C18.R6", "K3", "closing or unsubscribing a channel removes nothing from the store: the redelivery record of a message is shared by every channel that selected it (= C09.R7, who may delete message rows)")
+    from rules.c09 import who_deletes_messages
+    who_deletes_messages(cx, "C18.R6")
     cx.rule("C18.R5", "K1", "recipients are resolved when a message is dispatched, not when it is emitted: the spawned dispatch task captures the id-keyed handler table itself (behind its lock) and reads it there, so a close / unsubscribe / re-registration that has returned is seen by every later dispatch")
     r5_dispatch_time(cx)
     m = cx.m
